@@ -262,8 +262,9 @@ class LTLExplainer(LtlAstVisitor):
             op1_intervals, op2_intervals = explain_unsat_iff(op1_signal, op2_signal, intervals)
         self.explanations[element.name] = intervals
 
-        self.visit(element.children[0], [op1_intervals, flag])
-        self.visit(element.children[1], [op2_intervals, flag])
+        # the robustness of iff is computed from the values of both operands: below it there is no polarity to follow
+        self.visit(element.children[0], [op1_intervals, None])
+        self.visit(element.children[1], [op2_intervals, None])
 
     def visitXor(self, element, args):
         intervals = args[0]
@@ -276,8 +277,9 @@ class LTLExplainer(LtlAstVisitor):
             op1_intervals, op2_intervals = explain_unsat_xor(op1_signal, op2_signal, intervals)
         self.explanations[element.name] = intervals
 
-        self.visit(element.children[0], [op1_intervals, flag])
-        self.visit(element.children[1], [op2_intervals, flag])
+        # the robustness of xor is computed from the values of both operands: below it there is no polarity to follow
+        self.visit(element.children[0], [op1_intervals, None])
+        self.visit(element.children[1], [op2_intervals, None])
 
     def visitEventually(self, element, args):
         intervals = args[0]
